@@ -144,6 +144,17 @@ def impl(case):
             d = tuple(C.mkarr(x, shape2d, f"d{i}:" + case["op"]) for i, x in enumerate(data[:ncomp]))
             if all(float(v).is_integer() for x in data[:ncomp] for v in x):
                 d = tuple(np.asarray(x).astype("int64") for x in d)      # "all finite data values": also integer-typed ones
+            import zlib
+            if which != "vector" and zlib.crc32(("hist" + case["op"]).encode()) % 3 == 0:      # (VectorSpline2D documents its force memory)
+                # history: the same object was fitted before, to FEWER points elsewhere; exactness must hold for the latest fit
+                m0 = max(3, len(es) // 2)
+                pe = np.array([es[0] + 0.37 * (es[-1] - es[0] + 1.0) * (k % 5) - 0.11 * k * k for k in range(m0)]) + 0.013
+                pn = np.array([ns[0] - 0.29 * (ns[-1] - ns[0] + 1.0) * (k % 3) + 0.07 * k * k for k in range(m0)]) - 0.021
+                pd_ = tuple(np.cos(pe + 0.3 * c) + pn for c in range(ncomp))
+                try:
+                    g.fit((pe, pn), pd_[0] if ncomp == 1 else pd_)
+                except Exception:  # noqa: BLE001  (degenerate warm-up cloud for a Delaunay-based gridder: history simply absent)
+                    g, _ = build(which, params)
             g.fit(coords, d[0] if ncomp == 1 else d)
             pred = g.predict(coords)
             pred = (pred,) if ncomp == 1 else pred
